@@ -104,11 +104,16 @@ pub struct SchedKnobs {
     /// (yield or virtual delay) before asking for the next event: the runner is then not polled.
     #[serde(default)]
     pub consumer_pm: u32,
+    /// Every root poll gets a waker of its own and only the waker of the most recent poll wakes the
+    /// root (what `Future::poll` promises and `select_all`-like consumers rely on): a future that
+    /// keeps the waker of an earlier poll loses its wake-up.
+    #[serde(default, skip_serializing_if = "std::ops::Not::not")]
+    pub fresh_wakers: bool,
 }
 
 impl Default for SchedKnobs {
     fn default() -> Self {
-        Self { seed: 1, batch: 1, spurious_pm: 0, busy_k: 2, oversleep_ns: 0, consumer_pm: 0 }
+        Self { seed: 1, batch: 1, spurious_pm: 0, busy_k: 2, oversleep_ns: 0, consumer_pm: 0, fresh_wakers: false }
     }
 }
 
@@ -148,6 +153,9 @@ pub struct SchedStats {
     pub quiescent_points: u64,
     #[serde(default)]
     pub consumer_stalls: u64,
+    /// `fresh_wakers` runs: wake-ups through the waker of an earlier root poll (ignored).
+    #[serde(default)]
+    pub stale_wakes: u64,
 }
 
 struct TimerEntry {
@@ -416,14 +424,26 @@ pub fn uninstall_hooks() {
 // ---------------------------------------------------------------------------------------------
 // Executor
 
-struct RootWake(AtomicBool);
+/// Root waker: sets the shared flag - unless it belongs to an earlier poll and the run uses
+/// `fresh_wakers` (then only the generation of the most recent poll counts).
+struct RootWake {
+    flag: Arc<AtomicBool>,
+    current: Arc<std::sync::atomic::AtomicU64>,
+    generation: u64,
+    strict: bool,
+    stale_wakes: Arc<std::sync::atomic::AtomicU64>,
+}
 
 impl Wake for RootWake {
     fn wake(self: Arc<Self>) {
-        self.0.store(true, Ordering::SeqCst);
+        self.wake_by_ref();
     }
     fn wake_by_ref(self: &Arc<Self>) {
-        self.0.store(true, Ordering::SeqCst);
+        if !self.strict || self.current.load(Ordering::SeqCst) == self.generation {
+            self.flag.store(true, Ordering::SeqCst);
+        } else {
+            self.stale_wakes.fetch_add(1, Ordering::SeqCst);
+        }
     }
 }
 
@@ -445,14 +465,24 @@ pub fn run_root<'a>(
     mut root: Pin<Box<dyn Future<Output = ()> + 'a>>,
     per_poll: &mut dyn FnMut(&PollInfo),
 ) -> RunOutcome {
-    let wake = Arc::new(RootWake(AtomicBool::new(true)));
-    let waker = Waker::from(Arc::clone(&wake));
-    let mut cx = Context::from_waker(&waker);
     let knobs = core.knobs.clone();
+    let flag = Arc::new(AtomicBool::new(true));
+    let current = Arc::new(std::sync::atomic::AtomicU64::new(0));
+    let stale_wakes = Arc::new(std::sync::atomic::AtomicU64::new(0));
+    let mk_waker = |generation: u64| {
+        Waker::from(Arc::new(RootWake {
+            flag: Arc::clone(&flag),
+            current: Arc::clone(&current),
+            generation,
+            strict: knobs.fresh_wakers,
+            stale_wakes: Arc::clone(&stale_wakes),
+        }))
+    };
+    let mut waker = mk_waker(0);
     let mut noprog: u32 = 0;
 
     loop {
-        let woken = wake.0.swap(false, Ordering::SeqCst);
+        let woken = flag.swap(false, Ordering::SeqCst);
         let mut do_poll = woken;
         if !woken && knobs.spurious_pm > 0 {
             let sp = core.rng.borrow_mut().chance(u64::from(knobs.spurious_pm), 1000);
@@ -466,8 +496,14 @@ pub fn run_root<'a>(
             core.idle_ticks.set(0);
             core.decision(|| format!("poll{}", if woken { "" } else { "*" }), 1, u64::from(woken));
             core.in_root_poll.set(true);
+            if knobs.fresh_wakers {
+                let g = current.fetch_add(1, Ordering::SeqCst) + 1;
+                waker = mk_waker(g);
+            }
+            let mut cx = Context::from_waker(&waker);
             let res = panic::catch_unwind(AssertUnwindSafe(|| root.as_mut().poll(&mut cx)));
             core.in_root_poll.set(false);
+            core.stats.borrow_mut().stale_wakes = stale_wakes.load(Ordering::SeqCst);
             let polls = {
                 let mut st = core.stats.borrow_mut();
                 st.root_polls += 1;
@@ -491,7 +527,7 @@ pub fn run_root<'a>(
                 }
                 Ok(Poll::Pending) => {}
             }
-            let self_woken = wake.0.load(Ordering::SeqCst);
+            let self_woken = flag.load(Ordering::SeqCst);
             if core.progress_count() == before {
                 noprog += 1;
             } else {
@@ -534,7 +570,7 @@ pub fn run_root<'a>(
         if fired > 1 {
             core.stats.borrow_mut().batched_fires += 1;
         }
-        if fired == 0 && !wake.0.load(Ordering::SeqCst) {
+        if fired == 0 && !flag.load(Ordering::SeqCst) {
             return RunOutcome { end: RunEnd::Deadlock, panic_payload: None };
         }
     }
